@@ -164,6 +164,13 @@ def space_formula_source(f):
 class Real:
     """A live modelx model driven by operations."""
 
+    @classmethod
+    def wrap(cls, model):
+        self = cls.__new__(cls)
+        self.m = model
+        self.hooks = False
+        return self
+
     def __init__(self, name="M", hooks=True):
         self.m = mx.new_model(name)
         self.hooks = hooks
@@ -197,6 +204,8 @@ class Real:
             return tup(vs[1])
         if vs[0] == "o":
             return self.obj(vs[1])
+        if vs[0] == "py":
+            return py_value(vs[1])
         raise ValueError(vs)
 
     def obj(self, path):
@@ -280,6 +289,12 @@ class Real:
         if name is not None:
             o = o.cells[name]
         o.allow_none = value
+
+    def op_set_doc(self, path, name, text):
+        o = self.space(path) if path else self.m
+        if name is not None:
+            o = o.cells[name]
+        o.doc = text
 
     def op_set_ref(self, path, name, vs, mode=None):
         o = self.space(path) if path else self.m
@@ -409,7 +424,20 @@ def plain_real(v):
 # ----------------------------------------------------------------------------
 # the reference side
 
+def py_value(src):
+    """value of a (harness-generated) Python expression: floats like nan/inf, containers, modules"""
+    import math
+    import collections
+    import fractions
+    import decimal
+    import datetime
+    return eval(src, {"math": math, "collections": collections, "fractions": fractions,
+                      "decimal": decimal, "datetime": datetime, "float": float, "__builtins__": __builtins__})
+
+
 def ref_value(vs):
+    if vs[0] == "py":
+        return py_value(vs[1])
     if vs[0] == "v":
         return vs[1]
     if vs[0] == "t":
@@ -579,6 +607,12 @@ def apply_ref(rm, op):
             rm.armed[a[0]] = a[1]
         else:
             rm.armed.pop(a[0], None)
+    elif k == "set_doc":
+        path, name, text = tuple(a[0]), a[1], a[2]
+        o = rm.space(path) if path else rm
+        if name is not None:
+            o = o.cells[name]
+        o.doc = text
     elif k in ("eval", "recalc"):
         pass
     else:
@@ -591,5 +625,5 @@ VALUE_EDIT_OPS = {"clear_at", "clear_all", "clear_all_space", "clear_all_model",
 EDIT_OPS = {
     "new_space", "del_space", "rename_space", "add_bases", "remove_bases", "set_formula",
     "new_cells", "set_cells_formula", "del_cells", "rename_cells", "set_cached",
-    "set_allow_none", "set_ref", "del_ref", "set_value", "arm", "recalc",
+    "set_allow_none", "set_ref", "del_ref", "set_value", "arm", "recalc", "set_doc",
 }
